@@ -1002,7 +1002,7 @@ func oracleRetry(r *h.Run, sc *retrySc, o retryObs) {
 				r.Fail("attempt-after-success"+tag, fmt.Sprintf("attempt %d made after attempt %d succeeded", i+1, i), rep)
 			}
 			if p.Out == "fatal" {
-				r.Fail("attempt-after-non-retriable"+tag, fmt.Sprintf("attempt %d made after attempt %d failed with a non-retriable error", i+1, i), rep)
+				r.Fail("attempt-after-non-retriable"+tag, fmt.Sprintf("attempt %d made after attempt %d failed with a non-retriable error (shape %q: not one of the listed retriable errors by errors.Is)", i+1, i, p.ErrKind), rep)
 			}
 			if c.CtxDone {
 				r.Fail("attempt-after-context-done"+tag, fmt.Sprintf("attempt %d was made although the context was already done", i+1), rep)
